@@ -3,7 +3,6 @@ import json
 import random
 
 META = {
-    "disabled": True,
     "level": "model_checking",
     "text": "Support counting of the three implementations (beacon DKG result, tECDSA DKG result, inactivity claim) is one TLA+ "
             "specification: the Receive filter (not from self, pinned network key seated at the claimed index, sender operating, "
